@@ -320,6 +320,12 @@ func (m *MTProto) readMsg() error {
 		}
 	}
 
+	// once the session works under its auth key the server never talks in plain text: an unencrypted frame
+	// then comes from somebody else and must not be taken for a message of the server
+	if _, plain := response.(*messages.Unencrypted); plain && m.encrypted {
+		return errors.New("unencrypted message in an encrypted session")
+	}
+
 	if m.serviceModeActivated {
 		var obj tl.Object
 		// сервисные сообщения ГАРАНТИРОВАННО в теле содержат TL.
